@@ -76,7 +76,7 @@ REQUIRED_THEOREMS = ["queue_abs_invariant", "insert_commutes", "pop_commutes", "
                      "m_delayed_has_pending", "w_failed_retransmission_is_lost_datagram", "w_run_tracks_m_partial",
                      "w_single_outcome_partial", "w_attempts_on_schedule_partial", "w_drain_break_strands_witness", "w_no_failure_is_m",
                      "w_send_refused_nothing_queued", "w_refused_send_leaves_no_trace",
-                     "w_run_with_refused_send_is_m_without_it", "w_single_outcome_refused",
+                     "w_run_with_refused_send_is_m_without_it", "w_single_outcome_refused", "w_attempts_on_schedule_refused",
                      "ack_request_code_is_bad_ack", "m_solo_ack_request_code", "notify_wait_le_every_deadline",
                      "obs_wait_le_every_deadline_partial", "obs_io_wait_le_every_deadline_partial"]
 RULE = ("scenario lines for harness/msg.c (one real client context, 1-3 UDP sessions sharing the send queue, virtual clock, "
